@@ -3,7 +3,7 @@
    The model is Html/Model.v (all of /repo/html/lex.go and ToHash over the generated table); [run c n l] is a
    caller that calls Next n times whatever it returns; [cfg_ok c] says the two template delimiters contain no
    NUL byte (c = no_tmpl: NewLexer; the six predefined pairs satisfy it, cfg_ok_predefined). *)
-From Verif Require Import Common.Base Common.Lx Gen.Tables Html.Model Html.ListLemmas Html.Safety Html.Step Html.Spec Html.RawText Html.Proofs Html.Template Html.Wf Html.WfDoc Html.EndTag Html.TemplateMore Html.Script Html.TemplateAll.
+From Verif Require Import Common.Base Common.Lx Gen.Tables Html.Model Html.ListLemmas Html.Safety Html.Step Html.Spec Html.RawText Html.Proofs Html.Template Html.Wf Html.WfDoc Html.Sim Html.WfTmpl Html.EndTag Html.TemplateMore Html.Script Html.TemplateAll.
 
 (* C01 — no panic, no endless loop: n calls of Next succeed on every byte string, with or without template
    delimiters, whatever the caller does after an error. *)
@@ -167,7 +167,7 @@ Print Assumptions html_template_text_clean.
    A tag cut inside the whitespace after its name or after an attribute: html_wellformed_cut_tag_ws below.
    NOT covered (correspondence + Go oracle only): raw content that is empty (html_rawtext_end_exact
    says where raw content ends in general); text containing a '<' that opens nothing (other than at the end of input);
-   names containing '/'; templates. *)
+   names containing '/'; templates inside constructs (regions between constructs and after text: html_wellformed_templates). *)
 Theorem html_wellformed_tokens_partial :
   forall items, wf_doc items ->
     exists tr, run no_tmpl (length (doc_obs items) + 1) (new_lexer (doc_bytes items)) = Ok tr /\
@@ -191,6 +191,37 @@ Theorem html_wellformed_cut_tag_ws :
                Forall (fun r => lhas (snd r) = false) tr.
 Proof. exact html_wellformed_cut_ws_proof. Qed.
 Print Assumptions html_wellformed_cut_tag_ws.
+
+(* C09 — templates, transparency (one call, every context, every delimiter pair): if a call of Next made WITHOUT
+   delimiters returns (ty, tk, l') from a token boundary, and no opening delimiter starts at any byte the call consumed
+   (nor at the byte after the token when the call looks there: Text, Attribute and Error returns), then the same call
+   WITH the delimiters configured returns exactly the same token and state, and HasTemplate() is false.  (Sim.next_sim:
+   every scanning loop of the lexer, with its l.skipTemplate() / l.at(tmplBegin) tests, behaves as without them on
+   clean bytes.) *)
+Theorem html_template_transparent :
+  forall c d l ty tk l', cfg_ok c -> tb c <> [] -> html_inv d l -> lstart (lz l) = lpos (lz l) ->
+    next no_tmpl l = Ok (ty, tk, l') -> clean_range c d (lpos (lz l)) (lpos (lz l')) ->
+    (looks_end ty -> prefixb (tb c) (skipz (lpos (lz l')) d) = false) ->
+    next c l = Ok (ty, tk, l') /\ lhas l' = false.
+Proof. exact html_template_transparent_proof. Qed.
+Print Assumptions html_template_transparent.
+
+(* C09 — well-formed documents WITH templates (any delimiter pair): a document made of the constructs of the grammar
+   WfDoc.item (as in html_wellformed_tokens_partial, cut constructs included) and of delimited regions (Template.is_region)
+   placed between constructs, after text, at the start or at the end, where no opening delimiter starts inside a
+   construct's bytes (WfTmpl.wf_tdoc; a region may directly follow any construct whose last token is not a Text or
+   Attribute token — that excludes only CDATA sections and cut constructs — and any text): the lexer with the
+   delimiters configured returns the tokens of html_wellformed_tokens_partial for the constructs, each with
+   HasTemplate() = false, exactly ONE Template token per region (its bytes, empty Text(), HasTemplate() = true), then
+   the end-of-input report.  [observe_h] = ([observe], HasTemplate()).
+   NOT covered here (token level: html_template_exact and the attr / rawtext theorems; Go oracle c09-templates):
+   regions inside tags, attribute values, raw text, comments, CDATA, doctype, svg / math content. *)
+Theorem html_wellformed_templates :
+  forall c its, cfg_ok c -> tb c <> [] -> wf_tdoc c (tdoc_bytes its) [] its ->
+    exists tr, run c (length (tdoc_obs its) + 1) (new_lexer (tdoc_bytes its)) = Ok tr /\
+               map observe_h tr = tdoc_obs its ++ [(mkObs ErrorT [] [] [], false)].
+Proof. exact html_wellformed_templates_proof. Qed.
+Print Assumptions html_wellformed_templates.
 
 (* C02 / C09 — end tags are faithful (full clause, after fixes 980d021 and 7de66fe): for every end-tag token before
    the first error, with nr = the length of its name (the bytes after "</" up to the first whitespace, '>' or '/'),
